@@ -103,6 +103,7 @@ type runner struct {
 	c           *vh.Ctx
 	r           *rand.Rand
 	validBodies map[uint16][][]byte // per extension id: bodies the type's own Read produced (a few)
+	reported    map[string]int
 }
 
 // usable: ApplyPreset + BuildHandshakeState of the returned spec must not panic.
@@ -158,8 +159,7 @@ func (rn *runner) fingerprint(f flags, raw []byte) (obs string, spec *tls.Client
 	p, pv := vh.Recover(func() { spec, err = fp.FingerprintClientHello(in) })
 	switch {
 	case p:
-		rn.c.Count("fail:panic")
-		rn.c.Fail("FingerprintClientHello/"+panicKind(pv), "FingerprintClientHello panicked",
+		rn.fail("FingerprintClientHello/"+panicKind(pv), "FingerprintClientHello panicked",
 			map[string]any{"flags": f.String(), "raw_hex": vh.Hex(raw)}, fmt.Sprint(pv), "a spec or an error")
 		return "SPanic", nil, true
 	case err != nil:
@@ -193,7 +193,7 @@ func (rn *runner) rawCase(kind, key string, f flags, raw []byte, toCoq bool) {
 		return
 	}
 	nontrivial := spec != nil && len(spec.Extensions) > 0 || (obs == "SErr" && len(raw) > 43)
-	rn.c.Case(kind, fmt.Sprintf("CRaw %s %s %s %s %s", vh.Bool(f.blunt), vh.Bool(f.always), vh.Bool(f.real), vh.Bytes(raw), obs),
+	rn.c.Case(kind, fmt.Sprintf("CRaw %s %s %s %s %s", vh.Bool(f.blunt), vh.Bool(f.always), vh.Bool(f.real), packed(raw), obs),
 		key+"/"+f.String(), nontrivial, map[string]any{"kind": kind, "len": len(raw), "flags": f.String(), "obs": clip(obs, 200)})
 }
 
@@ -339,7 +339,9 @@ func (rn *runner) genHello(nExt int) hello {
 func (rn *runner) mutate(h hello) ([]byte, string) {
 	r := rn.r
 	b := append([]byte{}, h.raw...)
-	switch r.Intn(10) {
+	switch r.Intn(13) {
+	case 10, 11, 12:
+		return rn.identMutate(b), "ident-sweep"
 	case 7:
 		return reorderExts(b, r), "reorder-or-repeat"
 	case 8, 9:
@@ -494,10 +496,13 @@ func (rn *runner) writeSuite(n int) {
 }
 
 func run(c *vh.Ctx) {
-	rn := &runner{c: c, r: c.Rng, validBodies: map[uint16][][]byte{}}
+	rn := &runner{c: c, r: c.Rng, validBodies: map[uint16][][]byte{}, reported: map[string]int{}}
 	thorough := c.Tier != "quick"
 	n := c.N
+	rn.seedValidBodies()
 	rn.rawSuite(n, thorough)
+	rn.flagMatrix()
+	rn.identSweep()
 	rn.importSuite(n)
 	rn.jsonSuite(n)
 	rn.writeSuite(n)
@@ -644,4 +649,27 @@ func shrinkExt(raw []byte, r *rand.Rand) []byte {
 	e := append([]byte{encs[i][0], encs[i][1], byte(k >> 8), byte(k)}, body[:k]...)
 	encs[i] = e
 	return withExts(raw, start, encs)
+}
+
+// packed: a byte string as `(pk len [w1;w2;...]%uint63)`, 7 bytes per primitive integer, big-endian
+// (decoded by pk in Corr/C07Corr.v; list literals of single bytes dominate Coq's parsing time).
+func packed(b []byte) string {
+	if len(b) == 0 {
+		return "[]"
+	}
+	var sb strings.Builder
+	fmt.Fprintf(&sb, "(pk %d [", len(b))
+	for i := 0; i < len(b); i += 7 {
+		j := min(i+7, len(b))
+		var w uint64
+		for _, x := range b[i:j] {
+			w = w<<8 | uint64(x)
+		}
+		if i > 0 {
+			sb.WriteByte(';')
+		}
+		fmt.Fprintf(&sb, "%d", w)
+	}
+	sb.WriteString("]%uint63)")
+	return sb.String()
 }
